@@ -2596,4 +2596,20 @@ class Interp:
         E["builtins.map"] = lambda I, a, k, n: [I.call_value(a[0], [x], {}, n) for x in I.iterate(a[1], n)]
         for _m in ("lower", "upper", "strip"):
             E[f"builtins.str.{_m}"] = (lambda _m: lambda I, a, k, n: I.call_libmethod(a[0], _m, list(a[1:]), {}, n))(_m)
-        E["builtins.slice"] = lambda I, a, k, n: slice(*[None if x is None else I.to_py(x, n) for x in a])
+        def b_slice(I, a, k, n):
+            # same value as the subscript spelling x[lo:hi:st] (eval_index): a python slice when the bounds are concrete integers, the
+            # symbolic ("slice", lo, hi, st) form otherwise
+            def cv(v):
+                if v is None:
+                    return None
+                if isinstance(v, Num) and v.is_const() and v.value().denominator == 1:
+                    return int(v.value())
+                if _is_sym(v) and v.is_Integer:
+                    return int(v)
+                return v
+            parts = [cv(x) for x in a]
+            lo, hi, st = (None, parts[0], None) if len(parts) == 1 else (parts + [None])[:3]
+            if all(isinstance(x, (int, type(None))) for x in (lo, hi, st)):
+                return slice(lo, hi, st)
+            return ("slice", lo, hi, st)
+        E["builtins.slice"] = b_slice
